@@ -309,6 +309,106 @@ fn nesting_shapes() -> Vec<(&'static str, &'static str, &'static str)> {
 /// Data nested 10^5 levels and deeper, on the optimised runner (collections paced by the threshold) and
 /// on a thread with the 8 MiB stack of an ordinary main thread: whatever recurses over the nesting
 /// depth - tracing, printing, comparing, hashing, dropping - meets the limit a normal embedding has.
+/// The operand stack at its limit, one slot at a time.  Every level of `f` keeps 2 x 254 pending tuple
+/// elements on the stack while it calls the next level; the deepest level adds k more (0..=762, as pending
+/// elements of nested vec literals).  With depths 30, 31 and 32 the peak height sweeps a contiguous window
+/// of about 1 800 slots around the 16 384 a fiber's stack holds, so the program that fills the stack
+/// exactly, the one that is one short and the one that is one over are all among them, wherever exactly
+/// the interpreter draws the line.  (cell, source) pairs; also run by C10 on every build configuration.
+pub fn operand_stack_boundary_sources() -> Vec<(String, String)> {
+    let nils = |n: usize| vec!["nil"; n].join(", ");
+    let lit = |n: usize, inner: &str| -> String {
+        match (n, inner.is_empty()) {
+            (0, true) => "[]".to_string(),
+            (0, false) => format!("[{}]", inner),
+            (_, true) => format!("[{}]", nils(n)),
+            (_, false) => format!("[{}, {}]", nils(n), inner),
+        }
+    };
+    let mut out = Vec::new();
+    for (depth, in_fiber) in [(30usize, false), (31, false), (32, false), (31, true)] {
+        for k in 0..=762usize {
+            let a = k.min(254);
+            let b = (k - a).min(254);
+            let m = k - a - b;
+            let bottom = lit(a, &lit(b, &lit(m, "")));
+            let start = if in_fiber { "Fiber.new(go).call();" } else { "go();" };
+            let src = format!(
+                "fn f(n) {{\n  if n == 0 {{\n    return {};\n  }}\n  return ({}, ({}, f(n - 1)));\n}}\nfn go() {{\n  try {{\n    var t = f({});\n    print(\"completed\");\n  }} catch e {{\n    print(type(e));\n    print(e.context);\n  }}\n}}\n{}\nprint(\"done\");\n",
+                bottom,
+                nils(254),
+                nils(254),
+                depth,
+                start
+            );
+            out.push((format!("depth {} extra {}{}", depth, k, if in_fiber { " in a fiber" } else { "" }), src));
+        }
+    }
+    out
+}
+
+/// runs the boundary sweep: every program ends normally, having printed either `completed` or the
+/// IndexError `Stack overflow.` its handler caught; and once a program overflows, every program of the same
+/// depth with more pending values does too
+fn operand_stack_boundary(ctx: &Ctx, active: &[Finding]) -> (usize, Vec<(String, serde_json::Value)>, BTreeMap<String, usize>) {
+    let cases = operand_stack_boundary_sources();
+    let n = cases.len();
+    let results = par_map(&ctx.runner_checked, ctx.workers, cases.into_iter(), |runner, _i, (cell, src)| {
+        runner.timeout = std::time::Duration::from_secs(60);
+        let mut run = |runner: &mut crate::pool::Runner| -> (Option<String>, String) {
+            let mut req = Request { op: "run".into(), snippets: vec![src.clone()], fuel: Some(50_000_000), ..Default::default() };
+            match runner.call(&mut req) {
+                Obs::Resp(r) => match r.results.get(0) {
+                    Some(res) => {
+                        let out: Vec<&str> = res.out.iter().map(|s| s.as_str()).collect();
+                        match (&res.outcome, out.as_slice()) {
+                            (proto::Outcome::Ok, ["completed", "done"]) => (None, "completed".into()),
+                            (proto::Outcome::Ok, ["<class IndexError>", "Stack overflow.", "done"]) => (None, "overflow reported".into()),
+                            (proto::Outcome::Panic { msg }, _) => (Some(format!("interpreter panicked: {}", msg)), "panic".into()),
+                            (o, _) => (Some(format!("printed {:?} and ended with {:?}", out, o)), "other".into()),
+                        }
+                    }
+                    None => (Some("no result".into()), "none".into()),
+                },
+                other => (Some(format!("run ended in {}", other.describe())), "crash".into()),
+            }
+        };
+        let (mut problem, class) = run(runner);
+        if problem.is_some() {
+            let (again, _) = run(runner);
+            if again.is_none() {
+                problem = Some(format!("{} (and nothing wrong when run again)", problem.unwrap()));
+            }
+        }
+        (cell, src, problem, class)
+    });
+    let _ = active;
+    let mut violations = Vec::new();
+    let mut hist: BTreeMap<String, usize> = BTreeMap::new();
+    let mut overflowed: BTreeMap<String, usize> = BTreeMap::new();
+    for (cell, src, problem, class) in results {
+        *hist.entry(class.clone()).or_insert(0) += 1;
+        // "depth D extra K[ in a fiber]"
+        let parts: Vec<&str> = cell.split(' ').collect();
+        let series = format!("{} {}", parts[1], parts.get(4).map(|_| "fiber").unwrap_or("main"));
+        let k: usize = parts[3].parse().unwrap_or(0);
+        if let Some(p) = problem {
+            violations.push((format!("[operand_stack_boundary: {}] {}", cell, p), json!({"family": "operand_stack_boundary", "cell": cell, "request": {"op": "run", "snippets": [src]}, "runner": "checked", "problem": p})));
+            continue;
+        }
+        if class == "overflow reported" {
+            overflowed.entry(series).or_insert(k);
+        } else if let Some(first) = overflowed.get(&series) {
+            // (results arrive in ascending k within a series)
+            if k > *first {
+                let p = format!("the program with {} extra pending values completed although the one with {} overflowed", k, first);
+                violations.push((format!("[operand_stack_boundary: {}] {}", cell, p), json!({"family": "operand_stack_boundary", "cell": cell, "request": {"op": "run", "snippets": [src]}, "runner": "checked", "problem": p})));
+            }
+        }
+    }
+    (n, violations, hist)
+}
+
 fn deep_nesting_cases(thorough: bool) -> Vec<Case> {
     let mut out = Vec::new();
     let depths: Vec<usize> = if thorough { vec![30_000, 100_000, 200_000, 1_000_000] } else { vec![100_000, 200_000] };
@@ -333,6 +433,7 @@ struct Acc {
     violations: Vec<(String, serde_json::Value)>,
     attributed: BTreeMap<String, usize>,
     samples: Vec<serde_json::Value>,
+    unstable: Vec<String>,
 }
 
 fn attribute(c: &Case, problem: &str, active: &[Finding]) -> Option<String> {
@@ -417,7 +518,13 @@ pub fn run(ctx: &Ctx) -> Report {
         if let Some(p) = problem {
             // confirm
             let (_, p2, _) = run(runner);
-            // (a panic message may quote an address-dependent number: compare with digit runs masked)
+            // a case that is a problem in both runs is a violation, also when the two runs fail in different
+            // ways (a stale pointer makes the message, or the kind of crash, depend on where things happen
+            // to lie); a problem that does not repeat is unstable: no verdict from it
+            let Some(p2) = p2 else {
+                acc.unstable.push(format!("case `{}`: {:?} in the first run, nothing wrong in the second", c.cell, p));
+                return acc;
+            };
             let mask = |s: &str| -> String {
                 let mut out = String::new();
                 let mut in_digits = false;
@@ -434,12 +541,7 @@ pub fn run(ctx: &Ctx) -> Report {
                 }
                 out
             };
-            // two panics are the same verdict whatever their messages (a stale pointer makes the message
-            // depend on where things happen to lie)
-            let both_panic = p.starts_with("interpreter panicked") && p2.as_deref().map(|x| x.starts_with("interpreter panicked")).unwrap_or(false);
-            if !both_panic && p2.as_deref().map(mask) != Some(mask(&p)) {
-                crate::pool::machinery_failure(&format!("C02: case `{}` behaved differently when re-run: {:?} vs {:?}", c.cell, p, p2));
-            }
+            let p = if mask(&p2) != mask(&p) { format!("{} (a second run: {})", p, p2) } else { p };
             match attribute(&c, &p, active_ref) {
                 Some(f) => {
                     *acc.attributed.entry(f).or_insert(0) += 1;
@@ -455,7 +557,15 @@ pub fn run(ctx: &Ctx) -> Report {
     let deep = deep_nesting_cases(ctx.thorough());
     let n = n + deep.len();
     accs.extend(par_map(&ctx.runner_opt, ctx.workers.min(8), deep.into_iter(), |runner, i, c| judge_ref(runner, i + 1, c, Some(8192))));
+    let (n_boundary, boundary_violations, boundary_hist) = operand_stack_boundary(ctx, active_ref);
+    let n = n + n_boundary;
     let mut acc = Acc::default();
+    acc.evaluations += n_boundary;
+    acc.violations.extend(boundary_violations);
+    *acc.by_family.entry("operand_stack_boundary".into()).or_insert(0) += n_boundary;
+    for (k, v) in boundary_hist {
+        *acc.outcomes.entry(format!("boundary: {}", k)).or_insert(0) += v;
+    }
     for a in accs {
         acc.evaluations += a.evaluations;
         acc.cells.extend(a.cells);
@@ -466,11 +576,20 @@ pub fn run(ctx: &Ctx) -> Report {
             *acc.by_family.entry(k).or_insert(0) += v;
         }
         acc.violations.extend(a.violations);
+        acc.unstable.extend(a.unstable);
         for (k, v) in a.attributed {
             *acc.attributed.entry(k).or_insert(0) += v;
         }
         if acc.samples.len() < 5 {
             acc.samples.extend(a.samples);
+        }
+    }
+    if !acc.unstable.is_empty() {
+        for u in acc.unstable.iter().take(3) {
+            eprintln!("UNSTABLE: {}", u);
+        }
+        if acc.violations.is_empty() {
+            crate::pool::machinery_failure(&format!("C02: {} cases behaved differently when re-run and nothing else failed: {}", acc.unstable.len(), acc.unstable[0]));
         }
     }
     report.cov("evaluations", json!(acc.evaluations));
@@ -479,7 +598,7 @@ pub fn run(ctx: &Ctx) -> Report {
     report.cov("traces_validated_against_impl", json!(acc.evaluations));
     report.cov("distinct_nontrivial", json!(acc.cells.len()));
     report.cov("exhaustive", json!(true));
-    report.cov("rule", json!("native sweep: every built-in method of every value class (and the class-side methods of String, Fiber, Error, StopIter) on a receiver of the right class and on an instance of a class derived from it, with every argument tuple of the native's arity over a 46-value adversarial pool (43 values plus the receiver itself, a tuple and a vec holding it) (quick tier: a third of the two-argument tuples on derived receivers), plus one argument fewer and one more; every native reached through super from an instance method and from a static method of a class derived from the built-in class; operator sweep: 20 unary constructs x every pool value, 6 binary constructs x every ordered pair, slices over 8x8 bounds; resource grid: recursion depth {1..70} x frame width {1..250} and wide argument lists, nesting ladders to depth 10^4 for nine data shapes on the checked runner and to 2x10^5 / 10^6 on the optimised runner on a thread with an ordinary 8 MiB stack (tracing, printing, comparing, hashing and dropping data that deep), every uncaught-error program of C17's generator (the error report must not panic), 23 self-reference / mutation-during-iteration / fiber misuse programs. oracle: the run ends Ok or with a reported error; never a panic, crash or hang; a failing built-in call wrapped in try/catch reaches the handler with an instance of an error class. distinct = distinct (construct, argument-kind tuple) cells."));
+    report.cov("rule", json!("native sweep: every built-in method of every value class (and the class-side methods of String, Fiber, Error, StopIter) on a receiver of the right class and on an instance of a class derived from it, with every argument tuple of the native's arity over a 46-value adversarial pool (43 values plus the receiver itself, a tuple and a vec holding it) (quick tier: a third of the two-argument tuples on derived receivers), plus one argument fewer and one more; every native reached through super from an instance method and from a static method of a class derived from the built-in class; operator sweep: 20 unary constructs x every pool value, 6 binary constructs x every ordered pair, slices over 8x8 bounds; resource grid: recursion depth {1..70} x frame width {1..250} and wide argument lists, the operand stack swept across its limit one slot at a time (3 052 programs: recursion depth 30/31/32 with 2 x 254 pending literal elements per level and 0..762 more at the bottom, also inside a fiber; each must complete or report a catchable `Stack overflow.`, monotonically), nesting ladders to depth 10^4 for nine data shapes on the checked runner and to 2x10^5 / 10^6 on the optimised runner on a thread with an ordinary 8 MiB stack (tracing, printing, comparing, hashing and dropping data that deep), every uncaught-error program of C17's generator (the error report must not panic), 23 self-reference / mutation-during-iteration / fiber misuse programs. oracle: the run ends Ok or with a reported error; never a panic, crash or hang; a failing built-in call wrapped in try/catch reaches the handler with an instance of an error class. distinct = distinct (construct, argument-kind tuple) cells."));
     report.cov("bounds", json!({"pool_values": pool().len(), "cases": n}));
     report.cov("by_family", json!(acc.by_family));
     report.cov("outcome_histogram", json!(acc.outcomes));
